@@ -216,11 +216,16 @@ Section Fs.
 End Fs.
 
 (* ---------------- a compressed sibling that already exists ---------------- *)
-(* the validator of the compressed variant is the file's own modification time when there is no sibling, when the
-   sibling is at least a second older (it is re-created) or carries the same time *)
-Lemma sibling_ok now orig sib : siblingStale orig sib = true \/ sib = orig ->
-  compressedVariantMtime now orig (Some sib) = orig.
-Proof. unfold compressedVariantMtime. intros [-> | ->]; [reflexivity|]. destruct (siblingStale orig orig); reflexivity. Qed.
-(* ... but NOT when the sibling is newer than the file (known finding stale-compressed-sibling) *)
-Lemma sibling_refuted : exists now orig sib, compressedVariantMtime now orig (Some sib) <> orig.
-Proof. exists 2, 0, 1. vm_compute. discriminate. Qed.
+(* whatever compressed sibling lies next to the file (older, newer, same time), the validator of the compressed
+   variant is the file's own modification time: a sibling with another time is re-created *)
+Lemma sibling_ok now orig sib : compressedVariantMtime now orig (Some sib) = orig.
+Proof.
+  unfold compressedVariantMtime, siblingStale. cbv zeta.
+  destruct (Z.geb_spec (orig - sib) 1); [reflexivity|]. destruct (Z.leb_spec (orig - sib) (-1)); [reflexivity|].
+  cbn [orb]. lia.
+Qed.
+Lemma sibling_kept_iff orig sib : siblingStale orig sib = false <-> sib = orig.
+Proof.
+  unfold siblingStale. cbv zeta. destruct (Z.geb_spec (orig - sib) 1); destruct (Z.leb_spec (orig - sib) (-1)); cbn [orb];
+    split; intros; try discriminate; lia.
+Qed.
